@@ -50,6 +50,34 @@ CHECKS = {
          "'N to date' / 'N to Z' / 'N Z' for boundary-rich timestamps (0, +-1, +-86399/86400, 2^31-1, 2^31, 2^32, month starts around 1970 and 2038, leap days, 10^k, first/last second of years 1 and 9999, both signs) under four default zones: instant, zone, printed fields compared; '<date> as unix' and '<time> as unix' compared with the day-number model; 'x = N to date; x as unix' must give N digit for digit.",
          "Which instant 'D at T' denotes is not part of the statement: '<date-time> as unix' is compared with the instant of the observed date-time value." + COMMON_NOTE,
          "DESIGN.md section 6 C14"),
+ "C03": ("exhaustive enumeration of straight-line programs over line alphabets on the real code (run three ways) vs. a reference environment",
+         "Every program up to the stated depth over 26 numeric line kinds (bindings, re-bindings through case variants, copies, self-reference, multi-word names and a look-alike concatenation, negated/adjacent uses, syntax and evaluation failures on bound and fresh names, blank and comment lines) and bind/middle/use programs for all seven value kinds is run as one LF text, one CRLF text and line by line through a re-used session; every line the reference environment (lower-cased word sequence -> value, leftmost-then-longest lookup, failing lines change nothing) predicts is compared.",
+         "Uses of unbound names and of names whose only assignment failed are unspecified; the model reads only the generated line forms." + COMMON_NOTE,
+         "DESIGN.md section 6 C03"),
+ "C04": ("exhaustive enumeration of call histories (execute sequences on one calculator; set_text/execute_session/execute sequences over two sessions) on the real code with differential oracles against fresh calculators and a per-session reference environment",
+         "Every sequence up to the stated depth of execute(t) calls over texts that touch every shared structure, every sequence of evaluations of one line shape with different operands (to hit caches keyed by shape), and every sequence of session operations over two sessions and plain evaluations is executed; each observation (values, outputs, UI tokens) must equal that of a calculator used once, each session must behave as when its own operations are replayed alone on a fresh calculator (isolation), and slot counts/values/persistence must follow the reference environment.",
+         "The property is observational: hidden state that never changes a result is invisible by design. The effect of calling execute_session twice on the same text is unspecified." + COMMON_NOTE,
+         "DESIGN.md section 6 C04"),
+ "C08": ("exhaustive enumeration of (corpus line x literal fillings) rendered and evaluated under all four separator conventions on the real code; differential oracle",
+         "Every filling of the numeric slots of the corpus lines (arithmetic, percentage phrases, money and unit conversion/arithmetic incl. metric/imperial bridges, values through variables) with fractional and grouped literals is rendered from tags under each convention, evaluated under the matching configuration and the values compared across all conventions (all 12 ordered pairs); every literal alone must denote the intended number under its convention.",
+         "Separators other than '.', ',' and empty in input, and identical decimal/thousands separators, are outside the statement." + COMMON_NOTE,
+         "DESIGN.md section 6 C08"),
+ "C15": ("exhaustive enumeration of (kind x value grid x separator pair x digits x language); each printed result is fed back as a new line on the real code; differential oracle",
+         "For numbers, percentages, money in every currency with a configured symbol or alias, durations, times with zones, dates in and outside the clock's year, unit quantities of all 33 units and based integers the printed form is evaluated again under the same configuration and language and must print the same.",
+         "Two genuine inconsistencies of configuration data / unit definitions are listed as known findings (SEK prints 'kr' which reads as DKK; '12 months' printed for 360..364 days reads as one year)." + COMMON_NOTE,
+         "DESIGN.md section 6 C15"),
+ "C16": ("exhaustive enumeration of (corpus line x rewriting) on the real code; differential oracle original vs rewritten",
+         "Every corpus line is rewritten from its tags: every gap doubled/tripled, leading/trailing blanks, ' # text' appended and '# text' as an own line with text = every atom sequence up to length 2 (3 on a line subset) over an alphabet chosen for what the tokenizer could mistake it for, and every letter-case pattern of each keyword class (currency codes, month names, zone names, connectives, variable uses) one at a time and all at once; values must be unchanged; blank/comment-only lines must evaluate to nothing.",
+         "Letter case of unit names, duration words, am/pm and atom/field syntax is not varied; TAB is not a blank." + COMMON_NOTE,
+         "DESIGN.md section 6 C16"),
+ "C18": ("exhaustive enumeration of registration/deletion histories on the real code vs. a model of survivors, with a differential oracle against fresh calculators replaying only the survivors",
+         "Every sequence up to the stated depth over add_rule (three languages, four rules incl. a declining one and a name clash), delete_rule, add_dynamic_type and add_dynamic_type_item (incl. a rejected duplicate with other codes) runs on its own calculator: every return value is compared with the model; after the last call 21 probe lines (en, tr) are compared with a fresh calculator on which only the survivors were registered in order, with the token the first matching non-declining rule returns, and with the chain arithmetic of the user family.",
+         "Deleting a name shared by two surviving rules is ambiguous in the statement (both outcomes accepted)." + COMMON_NOTE,
+         "DESIGN.md section 6 C18"),
+ "C19": ("exhaustive enumeration of lines given by meaning x synonyms x languages on the real code; differential oracle against the English counterpart",
+         "Duration counts and lists, month-name dates and date arithmetic, day words and operator-word arithmetic are rendered in every non-English language with every synonym of each word (translation table built by meaning from config.json) and compared with the English counterpart (values equal; dates and durations printed with the language's own words, parsed back through its table); word-free lines must give identical slots in every language.",
+         "Connectives a language does not define (tr has no 'to'/'as') and zones are outside the statement." + COMMON_NOTE,
+         "DESIGN.md section 6 C19"),
  "C17": ("the atom-sequence enumeration of C01 re-run with a structural oracle on ExecuteLine.ui_tokens, plus position-tagged lines",
          "For every atom sequence within the bounds (in particular multi-byte atoms before, inside and after tokens) the UI tokens must satisfy 0 <= start < end <= number of characters, be ordered by start and never overlap; for position-tagged arithmetic lines embedded in multi-byte words and followed by a comment each literal, operator and comment must be reported with its own kind covering exactly its characters.",
          "Which kind a keyword, unit or variable gets is not checked." + COMMON_NOTE,
